@@ -310,14 +310,20 @@ def addEventRoute (att : Attempt) (target : Option Nat) (now : Int) :
         { acc with st := acc.st.set c.name r.1, cmds := acc.cmds ++ r.2, handled := true }
     else addEventRoute att target now cs acc
 
+def addEventStart (att : Attempt) (st : State) : State :=
+  if att.ev.kind = .start then { st with isRunning := true } else st
+
+/-- the `if not handled:` tail: an `UnhandledEvent`, except for `InputRequiredEvent`s -/
+def unhandledCmds (cfg : Cfg) (att : Attempt) (target : Option Nat) (a : AddAcc) : List Cmd :=
+  if a.handled then []
+  else if att.ev.kind = .inputRequired then []
+  else [.publish (.unhandled att.ev.ty target (checkIdle cfg a.st))]
+
 def processAddEvent (cfg : Cfg) (att : Attempt) (target : Option Nat) (st : State) (now : Int) :
     State × List Cmd :=
-  let st0 : State := if att.ev.kind = .start then { st with isRunning := true } else st
-  let a1 := addEventWaiters cfg att.ev target now cfg.steps { st := st0 }
+  let a1 := addEventWaiters cfg att.ev target now cfg.steps { st := addEventStart att st }
   let a2 := addEventRoute att target now cfg.steps a1
-  if a2.handled then (a2.st, a2.cmds)
-  else if att.ev.kind = .inputRequired then (a2.st, a2.cmds)
-  else (a2.st, a2.cmds ++ [.publish (.unhandled att.ev.ty target (checkIdle cfg a2.st))])
+  (a2.st, a2.cmds ++ unhandledCmds cfg att target a2)
 
 /-! ### `_process_step_result_tick` -/
 
@@ -417,28 +423,29 @@ def applyRes (cfg : Cfg) (pol : Policy) (step : Nat) (tickEv : Ev) (didComplete 
 
 def isResult : Res → Bool | .result _ => true | _ => false
 
+/-- after the results: either the execution stays in progress (collect re-run: its
+snapshot is rewritten in place) or it is removed and `NOT_RUNNING` is published first -/
+def settle (acc : ResAcc) (step worker : Nat) (tickEv : Ev) : StepState × List Cmd :=
+  let ss := acc.st.workers step
+  if acc.stillInProgress then
+    ({ ss with inProg := modifyFirst (fun w => w.wid == worker) (fun _ => acc.exec) ss.inProg },
+      acc.cmds)
+  else
+    ({ ss with inProg := ss.inProg.eraseP (fun w => w.wid == worker) },
+      Cmd.publish (.stepState .notRunning step tickEv.ty acc.out (some worker)) :: acc.cmds)
+
 def processStepResult (cfg : Cfg) (pol : Policy) (step worker : Nat) (tickEv : Ev) (res : List Res)
     (st : State) (now : Int) : State × List Cmd :=
   if !cfg.hasStep step then (st, [.crash]) else
   match (st.workers step).inProg.find? (fun w => w.wid == worker) with
   | none => (st, [.crash])
   | some exec =>
-    let didComplete := res.any isResult
-    let acc := res.foldl (applyRes cfg pol step tickEv didComplete) { st := st, exec := exec }
-    let isCompleted := acc.cmds.any Cmd.isExit
-    let ss := acc.st.workers step
-    -- write back / remove this execution
-    let (ss1, cmds1) :=
-      if acc.stillInProgress then
-        ({ ss with inProg := modifyFirst (fun w => w.wid == worker) (fun _ => acc.exec) ss.inProg },
-          acc.cmds)
-      else
-        ({ ss with inProg := ss.inProg.eraseP (fun w => w.wid == worker) },
-          Cmd.publish (.stepState .notRunning step tickEv.ty acc.out (some worker)) :: acc.cmds)
-    if isCompleted then (acc.st.set step ss1, cmds1)
+    let acc := res.foldl (applyRes cfg pol step tickEv (res.any isResult)) { st := st, exec := exec }
+    let r1 := settle acc step worker tickEv
+    if acc.cmds.any Cmd.isExit then (acc.st.set step r1.1, r1.2)
     else
-      let r := drain step (cfg.nw step) now ss1.queue.length ss1
-      (acc.st.set step r.1, cmds1 ++ r.2)
+      let r := drain step (cfg.nw step) now r1.1.queue.length r1.1
+      (acc.st.set step r.1, r1.2 ++ r.2)
 
 /-! ### remaining ticks -/
 
